@@ -541,7 +541,8 @@ Lemma syn_probe_knocks st ackok p :
   p_proto p = 0%N -> flag (p_flags p) 1 = true -> flag (p_flags p) 4 = false -> p_port p <> 22%N ->
   knocks_of_probe st ackok p = [mkKnock KTcp (src_mac (p_src p)) dst_mac (src_ip (p_src p)) dst_ip (p_port p)].
 Proof.
-  intros Hp Hs Ha H22. unfold knocks_of_probe. rewrite Hp, tcp_knock_iff. cbn.
+  intros Hp Hs Ha H22. unfold knocks_of_probe. rewrite Hp, tcp_knock_iff.
+  cbn [t_parse_ok t_is_me t_port22 t_syn t_ack t_state t_table_ok].
   rewrite Hs, Ha. apply N.eqb_neq in H22. rewrite H22. reflexivity.
 Qed.
 
@@ -568,3 +569,6 @@ Proof. vm_compute. reflexivity. Qed.
 Lemma each_rm_three :
   each_rm (fun x : N => x) (fun _ => true) [1; 2; 3]%N = ([1; 2; 3]%N, []).
 Proof. vm_compute. reflexivity. Qed.
+
+Lemma run_knocks_exact kts : groups_exact (map fst kts) (d_groups (run_knocks kts det0)).
+Proof. exact (dinv_exact _ _ (run_knocks_inv kts)). Qed.
